@@ -64,8 +64,13 @@ func VerifC05SendSync(addr string) (net.Conn, int64) {
 
 // VerifC05RunIncremental runs the real runIncrementalSync on a caller-supplied reader (exact control of
 // what every Read returns). It never returns unless the code aborts; `aborted` is closed in that case.
-func VerifC05RunIncremental(c net.Conn, src io.Reader, bufSize, rdbSize int, master string, pipew pipe.Writer, aborted chan<- struct{}) {
+// `started` receives an accessor of the retry counter (pSyncPipeCopy has returned = the code is in its reconnect loop).
+func VerifC05RunIncremental(c net.Conn, src io.Reader, bufSize, rdbSize int, master string, pipew pipe.Writer, aborted chan<- struct{},
+	started func(retries func() int)) {
 	ds := verifC05Syncer(0)
+	if started != nil {
+		started(func() int { return ds.fullSyncRetryCounter })
+	}
 	br := bufio.NewReaderSize(src, bufSize)
 	bw := bufio.NewWriterSize(c, 4096)
 	defer func() {
